@@ -22,5 +22,7 @@ C_Fn == M.fn
 C_Spelling == M.spelling
 C_Renames == {<<M.renames[i][1], M.renames[i][2]>> : i \in 1..Len(M.renames)}
 C_KwRenames == {[fid |-> r.fid, space |-> r.space, fname |-> r.fname, old |-> r.old, new |-> r.new, drop |-> r.drop,
-                 params |-> RangeOf(r.params), varkw |-> r.varkw] : r \in RangeOf(M.kwrenames)}
+                 params |-> RangeOf(r.params), varkw |-> r.varkw, pos |-> r.pos] : r \in RangeOf(M.kwrenames)}
+\* the name a class carries (__qualname__); several spaces may carry the same name (they stay distinct spaces)
+C_ClassName == TLCEval([s \in C_Spaces |-> IF s \in DOMAIN M.cname THEN M.cname[s] ELSE s])
 =============================================================================
